@@ -1,8 +1,1383 @@
-// Package c15: stub (property not built yet).
+// Package c15: pkg/schema's file writer, file reader and static sets against the Lean model
+// Pk.FS and against the property's own oracle (a reference interpreter of doc/schema/bytes.md).
 package c15
 
-import "verifharness/hk"
+import (
+	"bytes"
+	"context"
+	"errors"
+	"fmt"
+	"io"
+	"os"
+	"os/exec"
+	"runtime"
+	"runtime/debug"
+	"strconv"
+	"strings"
+	"sync"
 
-func NewExec() func(w []string) string { return func([]string) string { return "bad-op" } }
+	"go4.org/rollsum"
 
-func Run(r *hk.Run) { r.Note("not built yet") }
+	"perkeep.org/pkg/blob"
+	"perkeep.org/pkg/blobserver"
+	"perkeep.org/pkg/blobserver/memory"
+	"perkeep.org/pkg/schema"
+
+	"verifharness/hk"
+)
+
+var ctxbg = context.Background()
+
+func init() {
+	if os.Getenv("C15_SMALL_STACK") != "" {
+		debug.SetMaxStack(16 << 20) // the divergence probe: fail fast
+	}
+}
+
+// limits of the line protocol (the model applies the same ones)
+const (
+	maxReadLen  = 1 << 24
+	maxWriteLen = 1 << 26
+	maxSetLen   = 1 << 18
+)
+
+// the harness' own copy of the limits the property talks about (not read from perkeep)
+const (
+	chunkCap = 1 << 20
+)
+
+func num(w string) (uint64, bool) {
+	if len(w) == 0 || len(w) > 12 {
+		return 0, false
+	}
+	for _, c := range w {
+		if c < '0' || c > '9' {
+			return 0, false
+		}
+	}
+	v, err := strconv.ParseUint(w, 10, 64)
+	return v, err == nil
+}
+
+// ---- part trees --------------------------------------------------------------------------------------
+
+type ptree struct {
+	kind      byte // h, x, b, n
+	data      []byte
+	off, size uint64
+	sub       []*ptree
+}
+
+type parser struct {
+	s string
+	i int
+}
+
+func (p *parser) peek() byte {
+	if p.i < len(p.s) {
+		return p.s[p.i]
+	}
+	return 0
+}
+
+func (p *parser) num() (uint64, bool) {
+	j := p.i
+	for j < len(p.s) && p.s[j] >= '0' && p.s[j] <= '9' {
+		j++
+	}
+	v, ok := num(p.s[p.i:j])
+	p.i = j
+	return v, ok
+}
+
+func (p *parser) hex() ([]byte, bool) {
+	if p.peek() == '-' {
+		p.i++
+		return nil, true
+	}
+	j := p.i
+	for j < len(p.s) && (p.s[j] >= '0' && p.s[j] <= '9' || p.s[j] >= 'a' && p.s[j] <= 'f') {
+		j++
+	}
+	if j == p.i {
+		return nil, false
+	}
+	b, ok := hk.UnHex(p.s[p.i:j])
+	p.i = j
+	return b, ok
+}
+
+func (p *parser) expect(c byte) bool {
+	if p.peek() == c {
+		p.i++
+		return true
+	}
+	return false
+}
+
+func (p *parser) part() (*ptree, bool) {
+	k := p.peek()
+	switch k {
+	case 'h', 'x':
+		p.i++
+		n, ok := p.num()
+		return &ptree{kind: k, size: n}, ok
+	case 'b':
+		p.i++
+		d, ok := p.hex()
+		if !ok || !p.expect(':') {
+			return nil, false
+		}
+		o, ok := p.num()
+		if !ok || !p.expect(':') {
+			return nil, false
+		}
+		s, ok := p.num()
+		return &ptree{kind: 'b', data: d, off: o, size: s}, ok
+	case 'n':
+		p.i++
+		o, ok := p.num()
+		if !ok || !p.expect(':') {
+			return nil, false
+		}
+		s, ok := p.num()
+		if !ok || !p.expect('[') {
+			return nil, false
+		}
+		sub, ok := p.parts()
+		if !ok || !p.expect(']') {
+			return nil, false
+		}
+		return &ptree{kind: 'n', off: o, size: s, sub: sub}, true
+	}
+	return nil, false
+}
+
+func (p *parser) parts() ([]*ptree, bool) {
+	var out []*ptree
+	if p.i == len(p.s) || p.peek() == ']' {
+		return out, true
+	}
+	for {
+		t, ok := p.part()
+		if !ok {
+			return nil, false
+		}
+		out = append(out, t)
+		if p.peek() != ',' {
+			return out, true
+		}
+		p.i++
+		if p.i == len(p.s) || p.peek() == ']' {
+			return nil, false
+		}
+	}
+}
+
+func parseEnc(s string) ([]*ptree, bool) {
+	if s == "-" {
+		return nil, true
+	}
+	p := &parser{s: s}
+	ts, ok := p.parts()
+	if !ok || p.i != len(s) {
+		return nil, false
+	}
+	return ts, true
+}
+
+func encParts(ts []*ptree) string {
+	if len(ts) == 0 {
+		return "-"
+	}
+	return encList(ts)
+}
+
+func encList(ts []*ptree) string {
+	var sb strings.Builder
+	for i, t := range ts {
+		if i > 0 {
+			sb.WriteByte(',')
+		}
+		switch t.kind {
+		case 'h', 'x':
+			fmt.Fprintf(&sb, "%c%d", t.kind, t.size)
+		case 'b':
+			fmt.Fprintf(&sb, "b%s:%d:%d", hk.Hex(t.data), t.off, t.size)
+		case 'n':
+			fmt.Fprintf(&sb, "n%d:%d[%s]", t.off, t.size, encList(t.sub))
+		}
+	}
+	return sb.String()
+}
+
+// ---- the property's reference interpreter of doc/schema/bytes.md (independent of the model) ----------
+
+func sumSizes(ts []*ptree) uint64 {
+	var n uint64
+	for _, t := range ts {
+		n += t.size
+	}
+	return n
+}
+
+// wellFormed: no part with both refs, every range inside its referent
+func wellFormed(ts []*ptree) bool {
+	for _, t := range ts {
+		switch t.kind {
+		case 'x':
+			return false
+		case 'b':
+			if t.off+t.size > uint64(len(t.data)) {
+				return false
+			}
+		case 'n':
+			if !wellFormed(t.sub) || t.off+t.size > sumSizes(t.sub) {
+				return false
+			}
+		}
+	}
+	return true
+}
+
+func denote(ts []*ptree) []byte {
+	var out []byte
+	for _, t := range ts {
+		switch t.kind {
+		case 'h':
+			out = append(out, make([]byte, t.size)...)
+		case 'b':
+			out = append(out, t.data[t.off:t.off+t.size]...)
+		case 'n':
+			d := denote(t.sub)
+			out = append(out, d[t.off:t.off+t.size]...)
+		}
+	}
+	return out
+}
+
+// fullTree: every bytesRef part covers its whole referent (what the writer produces)
+func fullTree(ts []*ptree) bool {
+	for _, t := range ts {
+		if t.kind == 'n' && (t.off != 0 || t.size != sumSizes(t.sub) || !fullTree(t.sub)) {
+			return false
+		}
+	}
+	return true
+}
+
+// midPartOverrun: does a read at off start strictly inside a top-level part whose referent continues
+// past offset+size (the shape of the fixed finding F-C15-1), at this or a nested level?
+func midPartOverrun(ts []*ptree, off uint64) bool {
+	for _, t := range ts {
+		if off >= t.size {
+			off -= t.size
+			continue
+		}
+		switch t.kind {
+		case 'b':
+			return off > 0 && t.off+t.size < uint64(len(t.data))
+		case 'n':
+			if off > 0 && t.off+t.size < sumSizes(t.sub) {
+				return true
+			}
+			return midPartOverrun(t.sub, off+t.off)
+		}
+		return false
+	}
+	return false
+}
+
+// ---- real blobs ---------------------------------------------------------------------------------------
+
+type env struct {
+	sto   *memory.Storage
+	fr    *schema.FileReader
+	datas map[blob.Ref][]byte
+}
+
+func put(sto blobserver.BlobReceiver, b []byte) blob.Ref {
+	br := blob.RefFromBytes(b)
+	if _, err := blobserver.Receive(ctxbg, sto, br, bytes.NewReader(b)); err != nil {
+		panic(err)
+	}
+	return br
+}
+
+func (e *env) partsJSON(ts []*ptree) string {
+	var sb strings.Builder
+	sb.WriteByte('[')
+	for i, t := range ts {
+		if i > 0 {
+			sb.WriteByte(',')
+		}
+		switch t.kind {
+		case 'h':
+			fmt.Fprintf(&sb, `{"size":%d}`, t.size)
+		case 'x':
+			br := put(e.sto, []byte("both"))
+			e.datas[br] = []byte("both")
+			fmt.Fprintf(&sb, `{"blobRef":%q,"bytesRef":%q,"size":%d}`, br.String(), e.bytesBlob(nil).String(), t.size)
+		case 'b':
+			br := put(e.sto, t.data)
+			e.datas[br] = t.data
+			fmt.Fprintf(&sb, `{"blobRef":%q,"size":%d`, br.String(), t.size)
+			if t.off != 0 {
+				fmt.Fprintf(&sb, `,"offset":%d`, t.off)
+			}
+			sb.WriteByte('}')
+		case 'n':
+			fmt.Fprintf(&sb, `{"bytesRef":%q,"size":%d`, e.bytesBlob(t.sub).String(), t.size)
+			if t.off != 0 {
+				fmt.Fprintf(&sb, `,"offset":%d`, t.off)
+			}
+			sb.WriteByte('}')
+		}
+	}
+	sb.WriteByte(']')
+	return sb.String()
+}
+
+func (e *env) bytesBlob(ts []*ptree) blob.Ref {
+	return put(e.sto, []byte(`{"camliVersion":1,"camliType":"bytes","parts":`+e.partsJSON(ts)+`}`))
+}
+
+func errName(err error) string {
+	switch {
+	case err == nil:
+		return "nil"
+	case err == io.EOF:
+		return "eof"
+	case err == io.ErrUnexpectedEOF:
+		return "unexpectedEOF"
+	case strings.Contains(err.Error(), "illegally contained both"):
+		return "illegal"
+	}
+	return "err"
+}
+
+// ---- writer -------------------------------------------------------------------------------------------
+
+// genData regenerates the content named by "<kind>:<seed>" with the given length.
+func genData(spec string, n int) ([]byte, bool) {
+	kind, seedS, ok := strings.Cut(spec, ":")
+	seed, ok2 := num(seedS)
+	if !ok || !ok2 {
+		return nil, false
+	}
+	rnd := hk.NewRand(seed)
+	data := make([]byte, n)
+	switch kind {
+	case "zero":
+	case "const":
+		c := byte(rnd.U64())
+		for i := range data {
+			data[i] = c
+		}
+	case "rand":
+		copy(data, rnd.Bytes(n))
+	case "dense": // one 64-byte window on which the rolling checksum splits, repeated
+		w := splitWindow(rnd, 13, 13)
+		for i := range data {
+			data[i] = w[i%64]
+		}
+	case "dense3": // three windows with different split strengths in random order
+		ws := [][]byte{splitWindow(rnd, 13, 13), splitWindow(rnd, 14, 15), splitWindow(rnd, 16, 31)}
+		for i := 0; i < n; i += 64 {
+			w := ws[0]
+			switch x := rnd.Intn(16); {
+			case x == 0:
+				w = ws[2]
+			case x < 4:
+				w = ws[1]
+			}
+			copy(data[i:], w)
+		}
+	case "mixed": // segments of zero / random / dense data
+		ws := [][]byte{splitWindow(rnd, 13, 13), splitWindow(rnd, 14, 31)}
+		for i := 0; i < n; {
+			l := 1 + rnd.Intn(400_000)
+			if rnd.Chance(30) {
+				l = 1 + rnd.Intn(3000)
+			}
+			if i+l > n {
+				l = n - i
+			}
+			switch rnd.Intn(4) {
+			case 0:
+			case 1:
+				copy(data[i:i+l], rnd.Bytes(l))
+			default:
+				w := ws[rnd.Intn(2)]
+				for j := 0; j < l; j++ {
+					data[i+j] = w[j%64]
+				}
+			}
+			i += l
+		}
+	default:
+		return nil, false
+	}
+	return data, true
+}
+
+// splitWindow searches a 64-byte window after which the real rolling checksum reports a split of
+// strength lo..hi bits.
+func splitWindow(rnd *hk.Rand, lo, hi int) []byte {
+	for {
+		w := rnd.Bytes(64)
+		rs := rollsum.New()
+		for _, c := range w {
+			rs.Roll(c)
+		}
+		if rs.OnSplit() && rs.Bits() >= lo && rs.Bits() <= hi {
+			return w
+		}
+	}
+}
+
+// realSplits runs the real go4.org/rollsum over data: "pos:bits" for every 1-based position at which
+// OnSplit is true.
+func realSplits(data []byte) string {
+	rs := rollsum.New()
+	var sb strings.Builder
+	for i, c := range data {
+		rs.Roll(c)
+		if rs.OnSplit() {
+			if sb.Len() > 0 {
+				sb.WriteByte(',')
+			}
+			sb.WriteString(strconv.Itoa(i + 1))
+			sb.WriteByte(':')
+			sb.WriteString(strconv.Itoa(rs.Bits()))
+		}
+	}
+	if sb.Len() == 0 {
+		return "-"
+	}
+	return sb.String()
+}
+
+// fragReader delivers data in pieces: spec "p" (everything the caller asks for, EOF separately), or
+// "f<seed>:<maxpiece>:<eofwith>" (pieces of 1..maxpiece bytes, sometimes an empty read, and with
+// eofwith=1 the last piece comes together with io.EOF).
+type fragReader struct {
+	data     []byte
+	pos      int
+	plain    bool
+	rnd      *hk.Rand
+	maxPiece int
+	eofWith  bool
+	eofFrom  int // bytes delivered before the data-bearing Read that also returned io.EOF; -1 = none
+	reads    int
+}
+
+func newFragReader(spec string, data []byte) (*fragReader, bool) {
+	fr := &fragReader{data: data, eofFrom: -1}
+	if spec == "p" {
+		fr.plain = true
+		return fr, true
+	}
+	if !strings.HasPrefix(spec, "f") {
+		return nil, false
+	}
+	f := strings.Split(spec[1:], ":")
+	if len(f) != 3 {
+		return nil, false
+	}
+	seed, ok1 := num(f[0])
+	mp, ok2 := num(f[1])
+	ew, ok3 := num(f[2])
+	if !ok1 || !ok2 || !ok3 || mp == 0 || mp > 1<<24 || ew > 1 {
+		return nil, false
+	}
+	fr.rnd = hk.NewRand(seed)
+	fr.maxPiece = int(mp)
+	fr.eofWith = ew == 1
+	return fr, true
+}
+
+func (r *fragReader) Read(p []byte) (int, error) {
+	r.reads++
+	rem := len(r.data) - r.pos
+	if r.plain {
+		if rem == 0 {
+			return 0, io.EOF
+		}
+		n := copy(p, r.data[r.pos:])
+		r.pos += n
+		return n, nil
+	}
+	if rem == 0 {
+		return 0, io.EOF
+	}
+	if len(p) == 0 {
+		return 0, nil
+	}
+	if r.maxPiece > 1 && r.rnd.Intn(16) == 0 {
+		return 0, nil
+	}
+	k := 1 + r.rnd.Intn(r.maxPiece)
+	if k > len(p) {
+		k = len(p)
+	}
+	if k > rem {
+		k = rem
+	}
+	copy(p, r.data[r.pos:r.pos+k])
+	before := r.pos
+	r.pos += k
+	if r.pos == len(r.data) && r.eofWith {
+		r.eofFrom = before
+		return k, io.EOF
+	}
+	return k, nil
+}
+
+// recStore records when each blob's ReceiveBlob started and completed.
+type recStore struct {
+	*memory.Storage
+	mu        sync.Mutex
+	completed int
+	startAt   map[blob.Ref]int // completed count when the (first) receive of the blob started
+	doneAt    map[blob.Ref]int // completed count right after the (first) receive finished
+	jitter    *hk.Rand
+}
+
+func (s *recStore) ReceiveBlob(ctx context.Context, br blob.Ref, src io.Reader) (blob.SizedRef, error) {
+	s.mu.Lock()
+	if _, ok := s.startAt[br]; !ok {
+		s.startAt[br] = s.completed
+	}
+	j := s.jitter != nil && s.jitter.Intn(3) == 0
+	s.mu.Unlock()
+	if j {
+		runtime.Gosched()
+	}
+	sb, err := s.Storage.ReceiveBlob(ctx, br, src)
+	s.mu.Lock()
+	s.completed++
+	if _, ok := s.doneAt[br]; !ok && err == nil {
+		s.doneAt[br] = s.completed
+	}
+	s.mu.Unlock()
+	return sb, err
+}
+
+type writeResult struct {
+	out     string // the protocol answer
+	data    []byte
+	sto     *recStore
+	ref     blob.Ref
+	eofFrom int
+	reads   int
+	leaves  []uint64 // sizes of the raw chunks in order
+	nBytes  int      // number of bytes schema blobs
+	depth   int
+}
+
+// sizesTree walks the stored schema: b<size> for a chunk, B<size>[…] for a bytes schema blob.
+func sizesTree(sto blob.Fetcher, br blob.Ref, res *writeResult, depth int) (string, error) {
+	rc, _, err := sto.Fetch(ctxbg, br)
+	if err != nil {
+		return "", err
+	}
+	defer rc.Close()
+	b, err := schema.BlobFromReader(br, rc)
+	if err != nil {
+		return "", err
+	}
+	if depth > res.depth {
+		res.depth = depth
+	}
+	var items []string
+	for _, p := range b.ByteParts() {
+		switch {
+		case p.BlobRef.Valid() && p.BytesRef.Valid():
+			items = append(items, fmt.Sprintf("x%d", p.Size))
+		case p.BlobRef.Valid():
+			if p.Offset != 0 {
+				return "", errors.New("offset in written file")
+			}
+			items = append(items, fmt.Sprintf("b%d", p.Size))
+			res.leaves = append(res.leaves, p.Size)
+		case p.BytesRef.Valid():
+			if p.Offset != 0 {
+				return "", errors.New("offset in written file")
+			}
+			sub, err := sizesTree(sto, p.BytesRef, res, depth+1)
+			if err != nil {
+				return "", err
+			}
+			res.nBytes++
+			items = append(items, fmt.Sprintf("B%d[%s]", p.Size, sub))
+		default:
+			items = append(items, fmt.Sprintf("h%d", p.Size))
+		}
+	}
+	return strings.Join(items, ","), nil
+}
+
+// doWrite runs the real schema.WriteFileFromReader.
+func doWrite(dataSpec, readerSpec string, n int, jitter *hk.Rand) (res writeResult, ok bool) {
+	data, ok1 := genData(dataSpec, n)
+	if !ok1 {
+		return res, false
+	}
+	rd, ok2 := newFragReader(readerSpec, data)
+	if !ok2 {
+		return res, false
+	}
+	sto := &recStore{Storage: &memory.Storage{}, startAt: map[blob.Ref]int{}, doneAt: map[blob.Ref]int{}, jitter: jitter}
+	res.data, res.sto = data, sto
+	br, err := schema.WriteFileFromReader(ctxbg, sto, "f", rd)
+	res.eofFrom, res.reads = rd.eofFrom, rd.reads
+	if err != nil {
+		res.out = "err"
+		return res, true
+	}
+	res.ref = br
+	fr, err := schema.NewFileReader(ctxbg, sto, br)
+	if err != nil {
+		res.out = "err"
+		return res, true
+	}
+	tree, err := sizesTree(sto, br, &res, 0)
+	if err != nil {
+		res.out = "err"
+		return res, true
+	}
+	if tree == "" {
+		tree = "-"
+	}
+	res.out = fmt.Sprintf("ok %d %s", fr.Size(), tree)
+	return res, true
+}
+
+// ---- static sets --------------------------------------------------------------------------------------
+
+var ssetMu sync.Mutex
+
+func memberRef(i int) blob.Ref { return blob.RefFromString("member-" + strconv.Itoa(i)) }
+
+type ssetResult struct {
+	out      string
+	maxFan   int // largest number of members / mergeSets in one blob
+	nBlobs   int
+	got      []blob.Ref
+	members  []blob.Ref
+	readErr  error
+	leafSets int
+}
+
+func doSSet(m, l int) (res ssetResult) {
+	ssetMu.Lock()
+	defer ssetMu.Unlock()
+	old := schema.VerifSetMaxStaticSetMembers(m)
+	defer schema.VerifSetMaxStaticSetMembers(old)
+	members := make([]blob.Ref, l)
+	for i := range members {
+		members[i] = memberRef(i)
+	}
+	res.members = members
+	ss := schema.NewStaticSet()
+	subs := ss.SetStaticSetMembers(members)
+	sto := &memory.Storage{}
+	top := ss.Blob()
+	put(sto, []byte(top.JSON()))
+	for _, s := range subs {
+		put(sto, []byte(s.JSON()))
+	}
+	res.nBlobs = 1 + len(subs)
+	var shape func(br blob.Ref) (string, error)
+	shape = func(br blob.Ref) (string, error) {
+		rc, _, err := sto.Fetch(ctxbg, br)
+		if err != nil {
+			return "", err
+		}
+		defer rc.Close()
+		b, err := schema.BlobFromReader(br, rc)
+		if err != nil {
+			return "", err
+		}
+		ms, merge := b.StaticSetMembers(), b.StaticSetMergeSets()
+		if len(ms) > res.maxFan {
+			res.maxFan = len(ms)
+		}
+		if len(merge) > res.maxFan {
+			res.maxFan = len(merge)
+		}
+		if len(merge) == 0 {
+			res.leafSets++
+		}
+		s := "(" + strconv.Itoa(len(ms))
+		for _, c := range merge {
+			cs, err := shape(c)
+			if err != nil {
+				return "", err
+			}
+			s += cs
+		}
+		return s + ")", nil
+	}
+	sh, err := shape(top.BlobRef())
+	if err != nil {
+		res.out = "err"
+		res.readErr = err
+		return res
+	}
+	dir := schema.NewDirMap("d").PopulateDirectoryMap(top.BlobRef()).Blob()
+	put(sto, []byte(dir.JSON()))
+	dr, err := schema.NewDirReader(ctxbg, sto, dir.BlobRef())
+	if err != nil {
+		res.out = "err"
+		res.readErr = err
+		return res
+	}
+	got, err := dr.StaticSet(ctxbg)
+	res.got, res.readErr = got, err
+	flat := err == nil && len(got) == len(members)
+	if flat {
+		for i := range got {
+			if got[i] != members[i] {
+				flat = false
+				break
+			}
+		}
+	}
+	res.out = fmt.Sprintf("ok %s all=%d flat=%v", sh, len(subs), flat)
+	return res
+}
+
+// ---- the interpreter of the line protocol on the real code --------------------------------------------
+
+// NewExec returns a fresh interpreter.
+func NewExec() func(w []string) string {
+	e := &env{}
+	e.setTree(nil)
+	return func(w []string) string {
+		return hk.Guard(func() string { return e.exec(w) })
+	}
+}
+
+func (e *env) setTree(ts []*ptree) {
+	e.sto = &memory.Storage{}
+	e.datas = map[blob.Ref][]byte{}
+	top := e.bytesBlob(ts)
+	fr, err := schema.NewFileReader(ctxbg, e.sto, top)
+	if err != nil {
+		panic(err)
+	}
+	e.fr = fr
+}
+
+func (e *env) exec(w []string) string {
+	if len(w) == 0 {
+		return "bad-op"
+	}
+	switch w[0] {
+	case "tree":
+		if len(w) != 2 {
+			return "bad-op"
+		}
+		ts, ok := parseEnc(w[1])
+		if !ok {
+			return "bad-op"
+		}
+		e.setTree(ts)
+		return fmt.Sprintf("ok size=%d", e.fr.Size())
+	case "readat", "seekread":
+		if len(w) != 3 {
+			return "bad-op"
+		}
+		off, ok1 := num(w[1])
+		n, ok2 := num(w[2])
+		if !ok1 || !ok2 || n > maxReadLen {
+			return "bad-op"
+		}
+		p := make([]byte, n)
+		var got int
+		var err error
+		if w[0] == "readat" {
+			got, err = e.fr.ReadAt(p, int64(off))
+		} else {
+			if _, err := e.fr.Seek(int64(off), io.SeekStart); err != nil {
+				return "err"
+			}
+			got, err = e.fr.Read(p)
+		}
+		return hk.Hex(p[:got]) + " " + errName(err)
+	case "foreach":
+		if len(w) != 1 {
+			return "bad-op"
+		}
+		var items []string
+		err := e.fr.ForeachChunk(ctxbg, func(_ []blob.Ref, p schema.BytesPart) error {
+			if p.BlobRef.Valid() {
+				items = append(items, fmt.Sprintf("b%s:%d:%d", hk.Hex(e.datas[p.BlobRef]), p.Offset, p.Size))
+			} else {
+				items = append(items, fmt.Sprintf("h%d", p.Size))
+			}
+			return nil
+		})
+		s := "-"
+		if len(items) > 0 {
+			s = strings.Join(items, ",")
+		}
+		return s + " " + errName(err)
+	case "chunks":
+		if len(w) != 6 {
+			return "bad-op"
+		}
+		n, ok := num(w[3])
+		if !ok || n > maxWriteLen || !chunksArgsOK(w[4], w[5], n) {
+			return "bad-op"
+		}
+		res, ok := doWrite(w[1], w[2], int(n), nil)
+		if !ok {
+			return "bad-op"
+		}
+		return res.out
+	case "sset":
+		if len(w) != 3 {
+			return "bad-op"
+		}
+		m, ok1 := num(w[1])
+		l, ok2 := num(w[2])
+		if !ok1 || !ok2 || m > maxSetLen || l > maxSetLen {
+			return "bad-op"
+		}
+		return doSSet(int(m), int(l)).out
+	}
+	return "bad-op"
+}
+
+// chunksArgsOK: the same syntax check the model applies to <eofFrom> and <splits>.
+func chunksArgsOK(eof, splits string, n uint64) bool {
+	if eof != "-" {
+		if _, ok := num(eof); !ok {
+			return false
+		}
+	}
+	if splits == "-" {
+		return true
+	}
+	prev := uint64(0)
+	for _, it := range strings.Split(splits, ",") {
+		a, b, ok := strings.Cut(it, ":")
+		p, ok1 := num(a)
+		_, ok2 := num(b)
+		if !ok || !ok1 || !ok2 || p <= prev || p > n {
+			return false
+		}
+		prev = p
+	}
+	return true
+}
+
+// ---- generation + oracle ------------------------------------------------------------------------------
+
+type gen struct {
+	r  *hk.Run
+	ex func([]string) string
+}
+
+func (g *gen) op(line string) string {
+	out := g.ex(strings.Fields(line))
+	g.r.Op(line, out)
+	return out
+}
+
+// genTree: a random parts list; wf=false lets ill-formed shapes in (short referents, both refs).
+func genTree(rnd *hk.Rand, depth, budget int, wf bool) []*ptree {
+	var ts []*ptree
+	n := rnd.Intn(4)
+	if depth == 0 {
+		n = 1 + rnd.Intn(4)
+	}
+	for i := 0; i < n && budget > 0; i++ {
+		t := &ptree{}
+		k := rnd.Intn(10)
+		switch {
+		case k < 2:
+			t.kind = 'h'
+			t.size = uint64(rnd.Intn(4))
+		case k < 6 || depth >= 3:
+			t.kind = 'b'
+			t.data = rnd.Bytes(rnd.Intn(9))
+			// distinct, recognisable bytes
+			for j := range t.data {
+				t.data[j] = byte(1 + rnd.Intn(250))
+			}
+			l := len(t.data)
+			t.off = uint64(rnd.Intn(l + 1))
+			t.size = uint64(rnd.Intn(l - int(t.off) + 1))
+			if rnd.Chance(30) { // whole blob
+				t.off, t.size = 0, uint64(l)
+			}
+			if !wf && rnd.Chance(25) {
+				t.size += uint64(1 + rnd.Intn(3))
+			}
+		case k < 9:
+			t.kind = 'n'
+			t.sub = genTree(rnd, depth+1, budget/2+1, wf)
+			l := int(sumSizes(t.sub))
+			t.off = uint64(rnd.Intn(l + 1))
+			t.size = uint64(rnd.Intn(l - int(t.off) + 1))
+			if rnd.Chance(35) {
+				t.off, t.size = 0, uint64(l)
+			}
+			if !wf && rnd.Chance(25) {
+				t.size += uint64(1 + rnd.Intn(3))
+			}
+		default:
+			if wf {
+				t.kind = 'h'
+				t.size = uint64(1 + rnd.Intn(3))
+			} else {
+				t.kind = 'x'
+				t.size = uint64(rnd.Intn(4))
+			}
+		}
+		budget -= int(t.size)
+		ts = append(ts, t)
+	}
+	return ts
+}
+
+func treeDepth(ts []*ptree) int {
+	d := 0
+	for _, t := range ts {
+		if t.kind == 'n' {
+			if x := 1 + treeDepth(t.sub); x > d {
+				d = x
+			}
+		}
+	}
+	return d
+}
+
+func wantErr(size, off, n uint64) string {
+	switch {
+	case off >= size:
+		return "eof"
+	case off+n > size:
+		return "unexpectedEOF"
+	}
+	return "nil"
+}
+
+func sliceOf(d []byte, off, n uint64) []byte {
+	if off >= uint64(len(d)) {
+		return nil
+	}
+	end := off + n
+	if end > uint64(len(d)) {
+		end = uint64(len(d))
+	}
+	return d[off:end]
+}
+
+// readerCase: one tree, every (off, n), through ReadAt, Seek+Read and ForeachChunk.
+func (g *gen) readerCase(ts []*ptree, exhaustive bool) {
+	r := g.r
+	enc := encParts(ts)
+	treeOp := "tree " + enc
+	out := g.op(treeOp)
+	wf := wellFormed(ts)
+	size := sumSizes(ts)
+	if out != fmt.Sprintf("ok size=%d", size) {
+		r.Fail("tree-size", "FileReader.Size differs from the sum of part sizes", fmt.Sprint(size), out, []string{treeOp})
+		return
+	}
+	var want []byte
+	if wf {
+		want = denote(ts)
+		r.Hit("tree:wf")
+		r.Hit(fmt.Sprintf("tree:depth%d", treeDepth(ts)))
+	} else {
+		r.Hit("tree:illformed")
+	}
+	r.Distinct("tree:" + enc)
+	check := func(kind string, off, n uint64) {
+		line := fmt.Sprintf("%s %d %d", kind, off, n)
+		got := g.op(line)
+		if !wf {
+			return
+		}
+		wn := n
+		if kind == "seekread" && off < size && wn > size-off {
+			wn = size - off // a Read never reports more than is left
+		}
+		exp := hk.Hex(sliceOf(want, off, wn)) + " " + wantErr(size, off, wn)
+		if got != exp {
+			sig := kind + "-differs"
+			if midPartOverrun(ts, off) {
+				sig = kind + "-mid-part-overrun"
+			}
+			r.Fail(sig, fmt.Sprintf("%s(off=%d,len=%d) on %s", kind, off, n, enc), exp, got, []string{treeOp, line})
+		}
+		if midPartOverrun(ts, off) {
+			r.Hit("read:starts-inside-part-that-ends-before-its-referent")
+		}
+	}
+	if exhaustive {
+		for off := uint64(0); off <= size+1; off++ {
+			for n := uint64(0); off+n <= size+2; n++ {
+				check("readat", off, n)
+			}
+			check("seekread", off, size+1)
+			if size > 1 {
+				check("seekread", off, 1+uint64(g.r.R.Intn(int(size))))
+			}
+		}
+	} else {
+		for i := 0; i < 40; i++ {
+			off := uint64(g.r.R.Intn(int(size) + 2))
+			n := uint64(g.r.R.Intn(int(size) + 3))
+			check("readat", off, n)
+			check("seekread", off, n)
+		}
+	}
+	fo := g.op("foreach")
+	if wf && fullTree(ts) {
+		// the chunks, in order, spell the content
+		items, _, _ := strings.Cut(fo, " ")
+		var cat []byte
+		if items != "-" {
+			leaves, ok := parseEnc(items)
+			if ok {
+				cat = denote(leaves)
+			}
+		}
+		if !bytes.Equal(cat, want) || !strings.HasSuffix(fo, " nil") {
+			r.Fail("foreach-differs", "ForeachChunk chunks do not spell the content of "+enc, hk.Hex(want), fo, []string{treeOp, "foreach"})
+		}
+		r.Hit("foreach:full-tree")
+	}
+}
+
+type writeCase struct {
+	kind   string
+	reader string
+	n      int
+}
+
+func (g *gen) writerCase(wc writeCase) {
+	r := g.r
+	dataSpec := fmt.Sprintf("%s:%d", wc.kind, r.R.Intn(1_000_000))
+	res, ok := doWrite(dataSpec, wc.reader, wc.n, r.R.Fork())
+	if !ok {
+		panic("bad write case " + dataSpec + " " + wc.reader)
+	}
+	eof := "-"
+	if res.eofFrom >= 0 {
+		eof = strconv.Itoa(res.eofFrom)
+		r.Hit("write:eof-with-data")
+	}
+	line := fmt.Sprintf("chunks %s %s %d %s %s", dataSpec, wc.reader, wc.n, eof, realSplits(res.data))
+	r.Op(line, res.out)
+	short := fmt.Sprintf("chunks %s %s %d %s <splits>", dataSpec, wc.reader, wc.n, eof)
+	r.Distinct(fmt.Sprintf("write:%s:%s:%d", wc.kind, wc.reader, wc.n))
+	if !strings.HasPrefix(res.out, "ok ") {
+		r.Fail("write-error", "WriteFileFromReader failed: "+short, "ok", res.out, []string{line})
+		return
+	}
+	// O1: reading the file back gives the input, and its length
+	fr, err := schema.NewFileReader(ctxbg, res.sto, res.ref)
+	if err != nil {
+		r.Fail("write-unreadable", short, "readable", err.Error(), []string{line})
+		return
+	}
+	back, err := io.ReadAll(fr)
+	if err != nil || !bytes.Equal(back, res.data) || fr.Size() != int64(wc.n) {
+		r.Fail("write-readback-differs", fmt.Sprintf("%s: read back %d bytes (err %v), size %d", short, len(back), err, fr.Size()),
+			fmt.Sprint(wc.n), fmt.Sprint(len(back)), []string{line})
+	}
+	// O2: no chunk over the cap; the chunks spell the input
+	var cat []byte
+	err = fr.ForeachChunk(ctxbg, func(_ []blob.Ref, p schema.BytesPart) error {
+		if p.Size > chunkCap {
+			r.Fail("write-chunk-over-cap", fmt.Sprintf("%s: chunk of %d bytes", short, p.Size), "<= 1 MiB", fmt.Sprint(p.Size), []string{line})
+		}
+		c, ok := res.sto.BlobContents(p.BlobRef)
+		if !ok || uint64(len(c)) != p.Size || p.Offset != 0 {
+			return fmt.Errorf("chunk %v: stored %d bytes, part says %d", p.BlobRef, len(c), p.Size)
+		}
+		cat = append(cat, c...)
+		return nil
+	})
+	if err != nil || !bytes.Equal(cat, res.data) {
+		r.Fail("write-chunks-differ", fmt.Sprintf("%s: chunks do not reassemble (err %v)", short, err), "", "", []string{line})
+	}
+	// O3: everything the file blob references (transitively) was completely stored before the
+	// file blob's upload started
+	fileStart := res.sto.startAt[res.ref]
+	var walk func(br blob.Ref)
+	walk = func(br blob.Ref) {
+		rc, _, err := res.sto.Fetch(ctxbg, br)
+		if err != nil {
+			r.Fail("write-part-missing", short+": "+br.String(), "stored", "missing", []string{line})
+			return
+		}
+		b, err := schema.BlobFromReader(br, rc)
+		rc.Close()
+		if err != nil {
+			return
+		}
+		for _, p := range b.ByteParts() {
+			for _, ref := range []blob.Ref{p.BlobRef, p.BytesRef} {
+				if !ref.Valid() {
+					continue
+				}
+				done, ok := res.sto.doneAt[ref]
+				if !ok || done > fileStart {
+					r.Fail("write-part-after-file", fmt.Sprintf("%s: %v stored at %d, file blob started at %d", short, ref, done, fileStart),
+						"before", "after", []string{line})
+				}
+			}
+			if p.BytesRef.Valid() {
+				walk(p.BytesRef)
+			}
+		}
+	}
+	walk(res.ref)
+	// O4: sub-range reads of the written file
+	for i := 0; i < 12 && wc.n > 0; i++ {
+		off := r.R.Intn(wc.n)
+		l := r.R.Intn(wc.n - off + 1)
+		if l > 200_000 {
+			l = r.R.Intn(200_000)
+		}
+		if i < 6 && len(res.leaves) > 0 { // around a chunk boundary
+			b := 0
+			for _, s := range res.leaves[:1+r.R.Intn(len(res.leaves))] {
+				b += int(s)
+			}
+			off = b - r.R.Intn(3)
+			if off < 0 || off >= wc.n {
+				off = 0
+			}
+			l = r.R.Intn(min(wc.n-off, 5000) + 1)
+		}
+		p := make([]byte, l)
+		got, err := fr.ReadAt(p, int64(off))
+		r.ImplOnly("file-range-read")
+		if got != l || err != nil || !bytes.Equal(p, res.data[off:off+l]) {
+			r.Fail("file-range-read-differs", fmt.Sprintf("%s: ReadAt(off=%d,len=%d) = %d,%v", short, off, l, got, err), "", "", []string{line})
+		}
+	}
+	// mechanism counters
+	for _, s := range res.leaves {
+		switch {
+		case s == chunkCap:
+			r.Hit("chunk:at-cap")
+		case s <= 64<<10:
+			r.Hit("chunk:at-most-64k(last or first)")
+		}
+	}
+	if len(res.leaves) > 0 && res.leaves[0] == 256<<10 {
+		r.Hit("chunk:first-256k")
+	}
+	if res.nBytes > 0 {
+		r.Hit("tree:bytes-blobs")
+	}
+	r.Hit(fmt.Sprintf("tree:depth%d", res.depth))
+	if len(res.leaves) > 1 {
+		r.Sample(map[string]any{"kind": "write", "op": short, "impl": res.out[:min(len(res.out), 160)]})
+	}
+}
+
+func (g *gen) ssetCase(m, l int) {
+	r := g.r
+	line := fmt.Sprintf("sset %d %d", m, l)
+	var res ssetResult
+	out := hk.Guard(func() string { res = doSSet(m, l); return res.out })
+	r.Op(line, out)
+	r.Distinct(line)
+	if m < 3 {
+		if out == "panic" {
+			r.Hit("sset:panic-limit-below-3")
+		}
+		return
+	}
+	if !strings.HasSuffix(out, "flat=true") {
+		r.Fail("staticset-roundtrip-differs", fmt.Sprintf("max=%d members=%d: StaticSet returned %d members (err %v)", m, l, len(res.got), res.readErr),
+			fmt.Sprint(l), out, []string{line})
+	}
+	if res.maxFan > m {
+		r.Fail("staticset-blob-over-limit", fmt.Sprintf("max=%d members=%d: a static-set blob lists %d refs", m, l, res.maxFan), fmt.Sprint(m), fmt.Sprint(res.maxFan), []string{line})
+	}
+	switch {
+	case l <= m:
+		r.Hit("sset:single-blob")
+	case l/m < m:
+		r.Hit("sset:one-level-full-subsets")
+	default:
+		r.Hit("sset:recursive-even-split")
+	}
+	if l > m && l%m != 0 {
+		r.Hit("sset:with-rest-subset")
+	}
+}
+
+// Run generates the C15 cases.
+func Run(r *hk.Run) {
+	g := &gen{r: r, ex: NewExec()}
+	rnd := r.R
+	r.Res.Rule = "cases: (a) WriteFileFromReader for lengths around 0/1/64KiB/256KiB/1MiB(+multiples) x content kinds (zero, const, random, rollsum-dense windows, mixed) x reader fragmentations (plain, 1-byte, short reads, data+EOF); (b) generated part trees (depth<=3, offsets, sub-ranges, holes, nested bytes; some ill-formed) x every (off,len) through ReadAt, Seek+Read, ForeachChunk; (c) static sets for limit M in 3..10 and the shipped limit, member counts around M, M^2, M^3. distinct = distinct (content kind, reader, length) writes + distinct trees + distinct (M, count); non-trivial = a write of >= 1 byte, a tree with >= 1 part, a set with > M members"
+
+	// ---- (a) writer ----
+	const K = 1 << 10
+	lengths := []int{0, 1, 2, 63, 64, 65, 32*K - 1, 32 * K, 32*K + 1, 64*K - 1, 64 * K, 64*K + 1, 256*K - 1, 256 * K, 256*K + 1,
+		256*K + 64*K, 256*K + 64*K + 1, 256*K + 64*K + 65, 1024*K - 1, 1024 * K, 1024*K + 1, 1024*K + 256*K, 1024*K + 256*K + 1}
+	if r.Thorough() {
+		lengths = append(lengths, 2048*K-1, 2048*K, 2048*K+1, 2304*K+1, 3*1024*K+17, 4*1024*K, 5*1024*K+12345)
+	} else {
+		lengths = append(lengths, 2048*K+1)
+	}
+	kinds := []string{"zero", "rand", "dense", "dense3", "mixed", "const"}
+	readers := func() []string {
+		s := rnd.Intn(1_000_000)
+		return []string{"p", fmt.Sprintf("f%d:1:0", s), fmt.Sprintf("f%d:1:1", s), fmt.Sprintf("f%d:1000:0", s),
+			fmt.Sprintf("f%d:70000:1", s), fmt.Sprintf("f%d:5000:1", s), fmt.Sprintf("f%d:16777216:1", s)}
+	}
+	r.Case("writer")
+	for _, n := range lengths {
+		for ki, kind := range kinds {
+			rs := readers()
+			for ri, rd := range rs {
+				// quick: the full cross product only below 300 KiB, a diagonal above
+				if !r.Thorough() && n > 300*K && (ki+ri+n)%4 != 0 {
+					continue
+				}
+				if r.Thorough() && n > 1100*K && (ki+ri+n)%2 != 0 {
+					continue
+				}
+				if n < 64 && ki > 1 {
+					continue
+				}
+				g.writerCase(writeCase{kind, rd, n})
+			}
+		}
+	}
+	nRand := 12
+	if r.Thorough() {
+		nRand = 120
+	}
+	for i := 0; i < nRand; i++ {
+		n := rnd.Intn(2500 * K)
+		if r.Thorough() && i%10 == 0 {
+			n = rnd.Intn(7 * 1024 * K)
+		}
+		rs := readers()
+		g.writerCase(writeCase{kinds[rnd.Intn(len(kinds))], rs[rnd.Intn(len(rs))], n})
+	}
+
+	// ---- (b) reader ----
+	nTrees := 120
+	if r.Thorough() {
+		nTrees = 1500
+	}
+	r.Case("reader-trees")
+	// hand-made trees first: the witness of F-C15-1 and nested variants of it
+	for _, enc := range []string{
+		"b30313233343536373839:2:4,b6162636465666768696a:0:3",
+		"n1:5[b30313233343536373839:2:6,h2],b6162:0:2",
+		"n2:4[n1:8[b30313233343536373839:0:10,h3],b4142:0:2],h1,b6162636465:1:3",
+		"h3", "-", "b-:0:0,h0,b61:0:1", "n0:0[],b6162:1:1",
+		"n0:3[n0:3[n0:3[b616263:0:3]]]",
+	} {
+		ts, ok := parseEnc(enc)
+		if !ok {
+			panic("bad hand-made tree " + enc)
+		}
+		g.readerCase(ts, true)
+	}
+	for i := 0; i < nTrees; i++ {
+		wf := i%5 != 0
+		ts := genTree(rnd, 0, 14+rnd.Intn(12), wf)
+		if sumSizes(ts) > 40 {
+			g.readerCase(ts, false)
+		} else {
+			g.readerCase(ts, true)
+		}
+	}
+	r.Sample(map[string]any{"kind": "reader", "ops": r.CaseOps()[:min(3, len(r.CaseOps()))]})
+
+	// ---- (c) static sets ----
+	r.Case("static-sets")
+	ms := []int{3, 4, 5, 7}
+	if r.Thorough() {
+		ms = append(ms, 6, 10, 16)
+	}
+	for _, m := range ms {
+		seen := map[int]bool{}
+		add := func(l int) {
+			if l >= 0 && l <= 60000 && !seen[l] {
+				seen[l] = true
+				g.ssetCase(m, l)
+			}
+		}
+		for _, base := range []int{0, 1, m, 2 * m, m * (m - 1), m * m, m*m + m, (m - 1) * (m + 1), m * m * (m - 1), m * m * m, m*m*m + m*m, m * m * m * m} {
+			if base > 3000 && !r.Thorough() {
+				continue
+			}
+			for d := -2; d <= 2; d++ {
+				add(base + d)
+			}
+		}
+		for i := 0; i < 10; i++ {
+			add(rnd.Intn(m*m*m + 50))
+		}
+	}
+	// the limit below which the recursion needs care: 0 and 1 panic (division by zero) once spreading starts
+	for _, ml := range [][2]int{{0, 0}, {0, 1}, {1, 1}, {1, 2}, {1, 5}, {2, 2}, {2, 3}} {
+		g.ssetCase(ml[0], ml[1])
+	}
+	// the shipped limit
+	for _, l := range []int{9999, 10000, 10001, 20000, 25001} {
+		g.ssetCase(10000, l)
+	}
+	r.Sample(map[string]any{"kind": "static-set", "ops": r.CaseOps()[:3]})
+
+	// ---- malformed stream ----
+	r.Case("malformed")
+	for _, l := range []string{"", "tree", "tree h", "tree h3,", "tree b61:0", "tree b6:0:1", "tree B61:0:1", "tree n0:1[h1", "tree n0:1[h1,]",
+		"tree h1,,h1", "tree h1]", "tree h1234567890123", "readat", "readat 1", "readat -1 2", "readat 1 x", "readat 0 16777217", "readat 1_0 1",
+		"seekread 1", "foreach 1", "chunks", "chunks rand:1 p 10 - 11:13", "chunks rand:1 p 10 - 5:13,5:14", "chunks rand:1 p 10 x -",
+		"chunks rand:1 p 10 - 5", "chunks rand:1 p 67108865 - -", "sset", "sset 3", "sset 3 x", "sset 3 262145", "frobnicate 1 2", "tree h2", "readat 0 2"} {
+		g.op(l)
+	}
+
+	// ---- findings re-executed by their witnesses ----
+	func() {
+		ex := NewExec()
+		ex(strings.Fields("tree b30313233343536373839:2:4,b6162636465666768696a:0:3"))
+		got := ex(strings.Fields("readat 1 6"))
+		r.Probe("F-C15-1", got != "333435616263 nil", "ReadAt(off=1,len=6) over [0123456789 off 2 size 4][abcdefghij size 3] = "+got)
+	}()
+	r.Note(sideConditionProbe())
+}
+
+// sideConditionProbe: with the limit lowered to 2 (only possible through the verif hook) and 4
+// members SetStaticSetMembers recurses forever; run it in a child process to see the fatal stack
+// overflow the model's `diverge` stands for.
+func sideConditionProbe() string {
+	exe, err := os.Executable()
+	if err != nil {
+		return "side-condition probe (limit 2): not run: " + err.Error()
+	}
+	f, err := os.CreateTemp("", "c15-probe-*.txt")
+	if err != nil {
+		return "side-condition probe (limit 2): not run: " + err.Error()
+	}
+	defer os.Remove(f.Name())
+	f.WriteString("sset 2 4\n")
+	f.Close()
+	cmd := exec.Command(exe, "-replay", f.Name())
+	cmd.Env = append(os.Environ(), "GODEBUG=", "C15_SMALL_STACK=1")
+	out, err := cmd.CombinedOutput()
+	over := bytes.Contains(out, []byte("stack overflow")) || bytes.Contains(out, []byte("goroutine stack exceeds"))
+	return fmt.Sprintf("side-condition probe: maxStaticSetMembers=2 with 4 members in a child process: exit error=%v, stack overflow reported=%v (model: diverge)", err != nil, over)
+}
